@@ -12,7 +12,8 @@
 (* k, its class and the completion of the state after it (completion probing, DESIGN 3.2).         *)
 EXTENDS SenValue, Json
 CONSTANT MaxBad,       \* at most this many deviation records are kept per run (all are counted)
-         Mode          \* "judge" | "walk"
+         Mode,         \* "judge" | "walk"
+         Strict        \* the front-ends that are judged strictly; deviations of the others are kept apart (register 6, informational)
 
 Trace == ndJsonDeserialize("trace.ndjson")
 N == Len(Trace)
@@ -26,10 +27,13 @@ VARIABLES c,       \* case being consumed
 tvars == <<st, hist, c, i, errAt, pre, mark>>
 \* /* ... **/ : the real reader does not see the end of a C comment whose closing */ is preceded by another * (findings/XSEN.md F1);
 \* it goes on reading the rest of the text as comment.  The transition itself has no observable effect.
-SilentDivergence(s, b) == IF s.pc = "CStar" /\ b = 42 THEN "after-star-star" ELSE ""
+\* 1// c : a comment that starts directly behind a top-level NUMBER: the real reader forgets that the document is complete (F3);
+\* it returns nil and accepts a second document.
+SilentDivergence(s, b) == IF s.pc = "CStar" /\ b = 42 THEN "after-star-star"
+                          ELSE IF NumEndOK(s.pc) /\ s.stack = <<>> /\ b = 47 THEN "after-number-slash" ELSE ""
 
 TraceInit == /\ st = S0 /\ hist = <<>> /\ c = 1 /\ i = 1 /\ errAt = 0 /\ pre = S0 /\ mark = ""
-             /\ TLCSet(1, <<>>) /\ TLCSet(2, 0) /\ TLCSet(3, 0) /\ TLCSet(4, <<0, 0, 0, 0>>) /\ TLCSet(5, {})
+             /\ TLCSet(1, <<>>) /\ TLCSet(2, 0) /\ TLCSet(3, 0) /\ TLCSet(4, <<0, 0, 0, 0>>) /\ TLCSet(5, {}) /\ TLCSet(6, <<>>) /\ TLCSet(7, 0)
 
 TFeed == /\ Mode = "judge" /\ c <= N /\ i <= Len(Trace[c].b) /\ ~Dead(st)
          /\ LET b == Trace[c].b[i] IN
@@ -52,16 +56,21 @@ Extra(s) == IF s.pc \in {"Slash", "LCom", "CCom", "CStar"} THEN s.ret
 Locus == IF errAt > 0 THEN <<pre.pc, Extra(pre), Rep(Bytes[errAt]), TopOf(pre)>> ELSE <<st.pc, Extra(st), -1, TopOf(st)>>
 V == Verdict(st)
 
-Rec(g, kind, loc) == [i |-> c, as |-> g.as, kind |-> kind, loc |-> loc, m |-> IF g.r = 2 THEN g.m ELSE "", mark |-> mark]
-JudgeGroup(g, d) ==
-  IF g.r = 2 THEN <<Rec(g, "panic", Locus)>>
-  ELSE IF V = "rej" /\ g.r = 1 THEN <<Rec(g, "accepts-invalid", Locus)>>
-  ELSE IF V = "acc" /\ g.r = 0 THEN <<Rec(g, "rejects-valid", <<"?", "", 0, "?">>)>>
-  ELSE IF V = "acc" /\ g.r = 1 /\ "v" \in DOMAIN g /\ ~SMatches(d, g.v) THEN <<Rec(g, "wrong-value", SBlame(d, g.v))>>
+Rec(as, g, kind, loc) == [i |-> c, as |-> as, kind |-> kind, loc |-> loc, m |-> IF g.r = 2 THEN g.m ELSE "", mark |-> mark]
+\* strict = TRUE: the record for the strict front-ends of the group; FALSE: for the others
+JudgeGroup(g, d, strict) ==
+  LET as == SelectSeq(g.as, LAMBDA a : (a \in Strict) = strict) IN
+  IF as = <<>> THEN <<>>
+  ELSE IF g.r = 2 THEN <<Rec(as, g, "panic", Locus)>>
+  ELSE IF V = "rej" /\ g.r = 1 THEN <<Rec(as, g, "accepts-invalid", Locus)>>
+  ELSE IF V = "acc" /\ g.r = 0 THEN <<Rec(as, g, "rejects-valid", <<"?", "", 0, "?">>)>>
+  ELSE IF V = "acc" /\ g.r = 1 /\ "v" \in DOMAIN g /\ ~SMatches(d, g.v) THEN <<Rec(as, g, "wrong-value", SBlame(d, g.v))>>
   ELSE <<>>
-RECURSIVE JudgeAll(_, _, _)
-JudgeAll(gs, k, d) == IF k > Len(gs) THEN <<>> ELSE JudgeGroup(gs[k], d) \o JudgeAll(gs, k + 1, d)
-Judge == LET d == IF V = "acc" THEN SenDenote(Bytes) ELSE AnyV IN JudgeAll(Trace[c].o, 1, d)
+RECURSIVE JudgeAll(_, _, _, _)
+JudgeAll(gs, k, d, strict) == IF k > Len(gs) THEN <<>> ELSE JudgeGroup(gs[k], d, strict) \o JudgeAll(gs, k + 1, d, strict)
+Den == IF V = "acc" THEN SenDenote(Bytes) ELSE AnyV
+Judge == JudgeAll(Trace[c].o, 1, Den, TRUE)
+JudgeOthers == JudgeAll(Trace[c].o, 1, Den, FALSE)
 \* tally of what the implementations do on undetermined input: {<<locus, r, api>>}
 AmbTally == IF V # "any" THEN {} ELSE UNION {{<<Locus, Trace[c].o[k].r, Trace[c].o[k].as[a]>> : a \in 1..Len(Trace[c].o[k].as)} : k \in 1..Len(Trace[c].o)}
 Count == LET h == TLCGet(4) IN
@@ -73,6 +82,9 @@ TEnd == /\ Mode = "judge" /\ c <= N /\ (i > Len(Trace[c].b) \/ Dead(st))
         /\ LET j == Judge IN
            /\ (IF j = <<>> \/ Len(TLCGet(1)) >= MaxBad THEN TRUE ELSE TLCSet(1, TLCGet(1) \o j))
            /\ (IF j = <<>> THEN TRUE ELSE TLCSet(3, TLCGet(3) + Len(j)))
+        /\ LET j == JudgeOthers IN
+           /\ (IF j = <<>> \/ Len(TLCGet(6)) >= MaxBad THEN TRUE ELSE TLCSet(6, TLCGet(6) \o j))
+           /\ (IF j = <<>> THEN TRUE ELSE TLCSet(7, TLCGet(7) + Len(j)))
         /\ TLCSet(4, Count)
         /\ (IF V = "any" THEN TLCSet(5, TLCGet(5) \cup AmbTally) ELSE TRUE)
         /\ TLCSet(2, c)
@@ -81,7 +93,8 @@ TEnd == /\ Mode = "judge" /\ c <= N /\ (i > Len(Trace[c].b) \/ Dead(st))
 RECURSIVE Walk(_, _, _)
 Walk(s, bs, k) == IF k > Len(bs) THEN <<>>
                   ELSE LET n == Step(s, bs[k]) IN
-                       <<[pc |-> s.pc, ex |-> Extra(s), cls |-> Rep(bs[k]), top |-> TopOf(s), comp |-> IF Dead(n) THEN <<>> ELSE Completion(n)]>>
+                       <<[pc |-> s.pc, ex |-> Extra(s), cls |-> Rep(bs[k]), top |-> TopOf(s), sd |-> SilentDivergence(s, bs[k]),
+                          comp |-> IF Dead(n) THEN <<>> ELSE Completion(n)]>>
                        \o Walk(n, bs, k + 1)
 TWalk == /\ Mode = "walk" /\ c <= N /\ c' = N + 1 /\ UNCHANGED <<st, hist, i, errAt, pre, mark>>
          /\ TLCSet(1, [j \in 1..N |-> [id |-> Trace[j].id, steps |-> Walk(S0, Trace[j].b, 1)]])
@@ -90,10 +103,11 @@ TWalk == /\ Mode = "walk" /\ c <= N /\ c' = N + 1 /\ UNCHANGED <<st, hist, i, er
 TraceNext == TFeed \/ TEnd \/ TWalk
 TraceSpec == TraceInit /\ [][TraceNext]_tvars
 \* out.json; the tally of undetermined outcomes travels as extra keys of `hits` (ToString of <<locus, r, api>>), value 1
-HitKeys == {"acc", "rej", "any", "values"}
+HitKeys == {"acc", "rej", "any", "values", "others"}
 Post == IF Mode = "walk" THEN JsonSerialize("out.json", [n |-> TLCGet(2), bad |-> <<>>, nbad |-> 0, hits |-> [x \in {} |-> 0], walk |-> TLCGet(1)])
         ELSE JsonSerialize("out.json", [n |-> TLCGet(2), bad |-> TLCGet(1), nbad |-> TLCGet(3),
                                         hits |-> [k \in HitKeys \cup {ToString(t) : t \in TLCGet(5)} |->
                                                     CASE k = "acc" -> TLCGet(4)[1] [] k = "rej" -> TLCGet(4)[2] [] k = "any" -> TLCGet(4)[3]
-                                                      [] k = "values" -> TLCGet(4)[4] [] OTHER -> 1]])
+                                                      [] k = "values" -> TLCGet(4)[4] [] k = "others" -> TLCGet(7) [] OTHER -> 1],
+                                        others |-> TLCGet(6)])
 =============================================================================
